@@ -61,6 +61,8 @@ class GatewayMonitor:
         viols = []
         self.sync_clock(world)
         kind = ev[0]
+        if kind == "rx" and len(ev) > 2:
+            self.model.epoch, self.model.utc_offset = ev[2], ev[3]
         observed = self.decode_obs(obs)
         model_before = None
         if "sleep" in self.clauses or "ids" in self.clauses:
@@ -175,9 +177,12 @@ class GatewayMonitor:
             self.stats["set_calls_must_refuse"] += 1
             if not raised and "wake" in self.clauses and "sleeping-node" in exp.kind:
                 viols.append(self.v("refusal", exp.kind, f"set_child_value{ev[1:]} on a sleeping node returned normally although the value cannot be sent as a valid command"))
-            if not raised:
-                # follow the implementation so that later clauses see what it will do
-                if "sleeping-node" in exp.kind:
+            if not raised and "sleeping-node" in exp.kind:
+                # the call returned normally: from now on the value counts as pending, and the
+                # clauses on later steps (valid emissions, wake-up burst) judge what happens to it
+                try:
+                    self.model.commit_desired(ev[1], (ev[2], int(ev[3]), ev[4]))
+                except (ValueError, TypeError):
                     self.poisoned = True
             return
         if raised:
